@@ -360,6 +360,29 @@ CHECKS = {
         "out": ["real listeners' own goroutines", "more than one session", "instruction-level data races"],
         "assumptions": ["callbacks return normally"],
     },
+    "C19": {
+        "level_text": "A real Client (NewClient: listener goroutine, getOrBuildChannel, buildChannel, the real client handshake, receiver goroutine, dispatch "
+                      "loop, Client.Close) runs as symbolic threads over a transport factory whose transports are scripted well-behaved servers; after "
+                      "establishment one fault is injected: server 'finished', server 'failed', connection drop noticed by the transport, undecodable "
+                      "inbound data (Receive fails, connection stays up). Verdicts after the fault: the listener does not busy-loop (a background thread "
+                      "iterating without ever blocking is detected by the unwinding bound), a fresh session is established, a later SendMessage succeeds and "
+                      "is written to the live session (never to the lost one), an inbound envelope on the new session reaches the handler, the lost "
+                      "session's connection is released, and Client.Close leaves no goroutine behind.",
+        "level_note": "Trusted: SSA->SMT executor, bounded cooperative scheduler, z3. Bounds: 1 fault, <= 4 transports, loop bound 5 for library loops, P = 0 / 1 / 2. "
+                      "Busy-looping is an engine-side verdict (not observable natively); its consequences (no fresh session, deaf listener, untruthful send) are "
+                      "replayed natively. Back-off sleep timing and repeated faults are outside the claim.",
+        "runs": [
+            {"harness": "HarnessC19Recover", "grid": {"fault": [0, 1, 2, 3, 4], "inbound1": [0, 1], "P": [0, 1]}, "params": {"sched": 1, "spinok": 1},
+             "unroll": 5, "reach": ["c19:send-after-fault-returned"], "threads": True, "tier": "quick"},
+            {"harness": "HarnessC19Recover", "grid": {"fault": [0, 1], "P": [0, 1]}, "params": {"sched": 1, "spinok": 1, "badid": 1},
+             "unroll": 5, "reach": ["c19:send-after-fault-returned"], "threads": True},
+            {"harness": "HarnessC19Recover", "grid": {"fault": [0, 1, 2, 3, 4], "inbound1": [0, 1]}, "params": {"sched": 1, "spinok": 1, "P": 2},
+             "unroll": 5, "reach": ["c19:send-after-fault-returned"], "threads": True, "tier": "thorough", "timeout": 7000},
+        ],
+        "bounds": {"quick": {"faults": 1, "preemptions": 1}, "thorough": {"faults": 1, "preemptions": 2}},
+        "out": ["timing of back-off sleeps", "repeated faults", "faults during re-establishment", "real transports"],
+        "assumptions": ["the replacement server is reachable and well-behaved"],
+    },
     "C20": {
         "level_text": "EnvelopeMux.handleMessage/Notification/RequestCommand/ResponseCommand and the listen loop are executed symbolically over symbolic "
                       "handler tables (per handler: predicate missing or present with a symbolic verdict, handler result nil or error) and pre-loaded inbound "
